@@ -102,6 +102,15 @@ class Resolver:
                         return self.find(sub, a.name, depth + 1)
         return found
 
+    def imports(self, rel, name):
+        """(module, original name) that `name` is imported from in module rel, or None"""
+        for n in ast.walk(self.mod(rel)):
+            if isinstance(n, ast.ImportFrom) and n.level == 0:
+                for a in n.names:
+                    if (a.asname or a.name) == name:
+                        return (n.module, a.name)
+        return None
+
     def constant(self, rel, name):
         d = self.find(rel, name)
         if d is None:
@@ -666,6 +675,9 @@ def block(cx, stmts, fallthrough):
         ch = attr_chain(s.value.func)
         if ch == ['self', 'check_interpreting']:
             return tail()                                             # verified print-only at class level
+        hp = helper_of(cx, ch)
+        if hp is not None and cx.mode == 'M':
+            return inline_unit_helper(cx, s, hp[0], hp[1], tail)
         if cx.mode != 'M' or not is_effectful(cx, s.value):
             fail(w, s, 'expression statement outside the subset')
         if not rest and fallthrough == 'ret tt':
@@ -729,6 +741,54 @@ def inline_helper(cx, assign, fn, pnames, tail):
             cx.env.setdefault(k2, v2)
         return tail()
     return block_with_return(h, hb[:-1] + [syn], finish)
+
+
+def bound_names(fn):
+    out = set()
+    for n in ast.walk(fn):
+        tg = n.targets if isinstance(n, ast.Assign) else [n.target] if isinstance(n, (ast.AnnAssign, ast.For)) else []
+        for t in tg:
+            for e in ast.walk(t):
+                if isinstance(e, ast.Name):
+                    out.add(e.id)
+    return out
+
+
+def inline_unit_helper(cx, stmt, fn, pnames, tail):
+    """`self._helper(a1, ..)` as a statement (the helper returns nothing): its statements are translated in place with the
+    parameters standing for the argument values; a dict parameter that the helper updates in place (`d[k] = ..` in a loop over
+    d.items()) is the caller's dict, so the caller's name refers to the updated dict afterwards.  No return may occur
+    except a trailing bare one; a name bound by the helper must not clash with a live variable of the caller."""
+    w = cx.where
+    call = stmt.value
+    if call.keywords or len(pnames) != len(call.args):
+        fail(w, call, 'helper call form outside the subset')
+    hb = body_of(fn)
+    if hb and isinstance(hb[-1], ast.Return) and hb[-1].value is None:
+        hb = hb[:-1]
+    for n in ast.walk(fn):
+        if isinstance(n, (ast.Return, ast.While, ast.FunctionDef, ast.Lambda, ast.Try)) and n is not fn \
+                and not (isinstance(n, ast.Return) and n.value is None and n is body_of(fn)[-1]):
+            fail(w, n, 'unit helper body outside the subset')
+    bound = bound_names(fn) - set(pnames)
+    clash = bound & set(cx.env)
+    if clash:
+        fail(w, stmt, f'helper local(s) {sorted(clash)} would shadow live variables of the caller')
+    h = cx.child()
+    h.env = dict(cx.env)
+    alias = {}
+    for pn, an in zip(pnames, call.args):
+        c, kind = pexpr0(cx, an)
+        h.env[pn] = (kind, c)
+        if isinstance(an, ast.Name):
+            alias[pn] = an.id
+
+    def finish():
+        for pn, cn in alias.items():
+            if h.env[pn] != cx.env.get(cn) and h.env[pn][0] == 'delta':
+                cx.env[cn] = h.env[pn]                 # the dict was updated in place
+        return tail()
+    return block_with_return(h, hb, finish)
 
 
 def block_with_return(cx, stmts, finish):
@@ -897,6 +957,16 @@ def closure(cx, node):
         c2 = cx.child('M')
         c2.env[p] = ('interp', v(p))
         return f'(fun {v(p)} => {mexpr(c2, node.body, "proved", lambda c, k: f"ret {c}") if True else ""})'.replace('§', '')
+    if isinstance(node, ast.Call) and isinstance(node.func, ast.Name) and node.func.id == 'methodcaller' and node.args \
+            and isinstance(node.args[0], ast.Constant) and isinstance(node.args[0].value, str) and not node.keywords \
+            and RESOLVER is not None and RESOLVER.imports(cx.modrel, 'methodcaller') == ('operator', 'methodcaller'):
+        # operator.methodcaller(name, *args)  is  lambda obj: obj.name(*args)
+        lam = ast.Lambda(args=ast.arguments(posonlyargs=[], args=[ast.arg(arg='interpreter')], kwonlyargs=[], kw_defaults=[], defaults=[]),
+                         body=ast.Call(func=ast.Attribute(value=ast.Name(id='interpreter', ctx=ast.Load()), attr=node.args[0].value, ctx=ast.Load()),
+                                       args=list(node.args[1:]), keywords=[]))
+        ast.copy_location(lam, node)
+        ast.fix_missing_locations(lam)
+        return closure(cx, lam)
     if isinstance(node, ast.Name) and node.id in cx.closures:
         fn = cx.closures[node.id]
         p = fn.args.args[0].arg
